@@ -81,7 +81,7 @@ func init() {
 			{Name: "list metadata repaired in place at run time", File: c20JSONGo, Rule: "C20-R8", Key: "flattenListStructure",
 				Old: "\tif len(md.LevelInfo) < md.NestingLevel {\n\t\treturn astjson.NullValue, errors.New(\"nesting level data does not match the number of levels in the list metadata\")\n\t}\n", New: "\tif len(md.LevelInfo) < md.NestingLevel {\n\t\tmd.NestingLevel = len(md.LevelInfo)\n\t}\n"},
 			{Name: "fields of the concrete type cached on the shared message", File: c20JSONGo, Rule: "C20-R8", Key: "marshalResponseJSON/no-store-into-plan",
-				Old: "\t\tvalidFields = append(validFields, message.FragmentFields.SelectFieldsForTypes(", New: "\t\tmessage.Fields = append(validFields, message.FragmentFields.SelectFieldsForTypes("},
+				Old: "\t\tvalidFields = append(validFields[:len(validFields):len(validFields)], message.FragmentFields.SelectFieldsForTypes(", New: "\t\tmessage.Fields = append(validFields[:len(validFields):len(validFields)], message.FragmentFields.SelectFieldsForTypes("},
 			{Name: "member types sorted in place for a binary search", File: c20CompilerGo, Rule: "C20-R8", Key: "isAllowedForTypename/no-in-place",
 				Old: "\treturn slices.Contains(message.MemberTypes, typeName.String())\n", New: "\tslices.Sort(message.MemberTypes)\n\t_, found := slices.BinarySearch(message.MemberTypes, typeName.String())\n\treturn found\n"},
 			{Name: "request compiler tests the optional-scalar wrapper before the list wrapper", File: c20CompilerGo, Rule: "C20-R9", Key: "resolveNestedMessage",
